@@ -58,12 +58,13 @@ static void play_to_end(Inst &x, double g)
     }
 }
 
-struct ChanState { int patch, msb, lsb, volume, expression, pan, bend, bs_msb, bs_lsb; bool sustain, soft; int lrpn, mrpn; bool nrpn; };
+struct ChanState { int patch, msb, lsb, volume, expression, pan, bend, bs_msb, bs_lsb; bool sustain, soft; int lrpn, mrpn; bool nrpn; bool drum; };
 static ChanState chan_state(OPN2_MIDIPlayer *d, int ch)
 {
     const OPNMIDIplay::MIDIchannel &m = P(d)->m_midiChannels[(size_t)ch];
     ChanState s; s.patch = m.patch; s.msb = m.bank_msb; s.lsb = m.bank_lsb; s.volume = m.volume; s.expression = m.expression; s.pan = m.panning; s.bend = m.bend;
     s.bs_msb = m.bendsense_msb; s.bs_lsb = m.bendsense_lsb; s.sustain = m.sustain; s.soft = m.softPedal; s.lrpn = m.lastlrpn; s.mrpn = m.lastmrpn; s.nrpn = m.nrpn;
+    s.drum = m.is_xg_percussion;       // what the bank numbers mean for the channel (XG MSB 126/127 = percussion): part of the bank state
     return s;
 }
 static std::string diff_state(const ChanState &a, const ChanState &b)
@@ -71,7 +72,7 @@ static std::string diff_state(const ChanState &a, const ChanState &b)
     std::string r;
     #define F(f, name) if(a.f != b.f) r += vfmt("%s %d!=%d ", name, (int)a.f, (int)b.f);
     F(patch, "program") F(msb, "bank-msb") F(lsb, "bank-lsb") F(volume, "volume") F(expression, "expression") F(pan, "pan") F(bend, "bend")
-    F(bs_msb, "bend-range-msb") F(bs_lsb, "bend-range-lsb") F(sustain, "sustain-pedal") F(soft, "soft-pedal") F(lrpn, "rpn-lsb") F(mrpn, "rpn-msb") F(nrpn, "nrpn-flag")
+    F(bs_msb, "bend-range-msb") F(bs_lsb, "bend-range-lsb") F(sustain, "sustain-pedal") F(soft, "soft-pedal") F(lrpn, "rpn-lsb") F(mrpn, "rpn-msb") F(nrpn, "nrpn-flag") F(drum, "bank-percussion-role")
     #undef F
     return r;
 }
@@ -241,6 +242,12 @@ static void run_case(Case &c)
         int pre = (int)r.below(4);
         if(pre == 1 || pre == 3) { double t2 = r.chance(0.5) ? pick_target() : r.unit() * ref_len; play_to(B, t2, g); hist += vfmt("play-to %.6f; ", t2); }
         if(pre >= 2) { double t3 = pick_target(); API("opn2_positionSeek", opn2_positionSeek(B.d, t3)); hist += vfmt("seek %.6f; ", t3); if(r.chance(0.5)) { B.acc = t3; B.next_delay = 0; B.at_end = false; double t4 = t3 + r.unit() * 0.5; play_to(B, t4, g); hist += vfmt("play-to %.6f; ", t4); } }
+        if(r.chance(0.12))
+        {   // the target is the very position the player reports (a host re-synchronising): still a seek, notes end as after any other
+            play_to(B, t, g);
+            double here = t; API("opn2_positionTell", here = opn2_positionTell(B.d));
+            if(fabs(here - t) < 1e-6) { t = here; hist += vfmt("play-to %.9f; target = the reported position; ", t); count("seeks_to_the_reported_position"); }
+        }
         hist += vfmt("seek %.9f (%s)", t, B.acc > t ? "backward" : "forward");
         ctx += "; B: " + hist;
         size_t bseek0 = B.cap.ev.size();
